@@ -8,7 +8,7 @@ From Coq Require Import List Arith Bool ZArith QArith.
 Import ListNotations.
 Require Import Base.C11_Unique Model.C11_Topo Proofs.C11_TopoProofs.
 Require Import Model.C12_Refine Model.C12_Geom Model.C13_Adaptive Model.C12_Global Model.C13_TetLoop.
-Require Import Proofs.C12_RefineProofs Proofs.C12_GeomProofs Proofs.C13_AdaptiveProofs Proofs.C12_GlobalProofs Proofs.C13_TetLoopProofs.
+Require Import Proofs.C12_RefineProofs Proofs.C12_GeomProofs Proofs.C13_AdaptiveProofs Proofs.C12_GlobalProofs Proofs.C13_TetLoopProofs Proofs.C12_InvProofs Proofs.C13_InvProofs.
 Require Import Gen.C13Gen Dyn.C13Tie.
 Local Open Scope nat_scope.
 
@@ -131,6 +131,39 @@ Proof.
 Qed.
 Print Assumptions C13_shared_facet_split_alike.
 
+(* an adaptive step (ANY re-ordering of the vertices inside the cells, ANY marking of the facets; facet tables of C11) maps a
+   mesh whose cells have three pairwise distinct, existing vertices to a mesh with the same property *)
+Theorem C13_adaptive_step_keeps_distinct_vertices : forall p cells F,
+  cells_ok 3 (length p) cells -> length F = length (entities true cells gen13_tri_rfacets) ->
+  let s := split_elements gen_split_blocks p (c11_tables cells gen13_tri_rfacets) F in
+  cells_ok 3 (length (as_p s)) (as_t s).
+Proof.
+  intros p cells F. exact (adaptive_step_ok gen_split_blocks p cells gen13_tri_rfacets F tri13_slots_ok eq_refl split_blocks_ok).
+Qed.
+Print Assumptions C13_adaptive_step_keeps_distinct_vertices.
+
+(* history: along ANY sequence of uniform steps (any step function with the property proved in C12_uniform_step_keeps_distinct_
+   vertices) and adaptive steps the cells keep pairwise distinct vertices, and therefore at EVERY mesh of the history the
+   red-green-blue split cuts every facet alike from all cells containing it (C13_global_no_hanging_nodes applies) *)
+Theorem C13_history_conforming :
+  forall (ustep : list point -> list (list nat) -> list point * list (list nat)),
+  (forall p t, cells_ok 3 (length p) t -> cells_ok 3 (length (fst (ustep p t))) (snd (ustep p t))) ->
+  forall steps pt, cells_ok 3 (length (fst pt)) (snd pt) ->
+  history_valid gen_split_blocks gen13_tri_rfacets ustep steps pt ->
+  let r := fold_left (fun pt st => apply_hstep gen_split_blocks gen13_tri_rfacets ustep st pt) steps pt in
+  cells_ok 3 (length (fst r)) (snd r) /\
+  forall F nv k a, k < length (snd r) -> a < length gen13_tri_rfacets ->
+    let tb := c11_tables (snd r) gen13_tri_rfacets in
+    forall e, In e (resolved_pieces gen13_tri_rfacets F nv (cell_ctx tb k) a)
+              <-> In e (facet_trace F nv (tb_facets tb) (nth a (cf (cell_ctx tb k)) 0)).
+Proof.
+  intros ustep Hu steps pt H Hv r.
+  pose proof (history_cells_ok gen_split_blocks gen13_tri_rfacets ustep tri13_slots_ok eq_refl split_blocks_ok Hu steps pt H Hv) as Hr.
+  split; [exact Hr|]. intros F nv k a.
+  exact (global_facet_trace (snd r) gen13_tri_rfacets 3 tri13_rf2_ok (cells_ok_distinct _ _ _ Hr) F nv k a).
+Qed.
+Print Assumptions C13_history_conforming.
+
 (* the children of every class tile the parent, for every parent geometry: convex weights, non-zero
    determinants det(child) = s det(parent) with sum |s| = 1, pairwise separated interiors *)
 Theorem C13_tri_children_tile_parent : forall b, In b gen_split_blocks ->
@@ -145,6 +178,19 @@ Proof.
   intros b Hb. pose proof tiles_ok as H. rewrite forallb_forall in H. exact (tri_tiles_sound triW (snd b) (H b Hb)).
 Qed.
 Print Assumptions C13_tri_children_tile_parent.
+
+(* the same with the measure-theoretic step as an explicit hypothesis: under the tiling principle the children of every class
+   (rest / red / blue1 / blue2 / green) cover their parent, and the two children of a tetrahedral bisection cover theirs *)
+Theorem C13_children_tile_parent_given_principle :
+  (forall Covers, tri_tiling_principle Covers -> forall b, In b gen_split_blocks -> Covers (map triW (snd b))) /\
+  (forall Covers, tet_tiling_principle Covers -> Covers (map tetW gen_tet_bisect)).
+Proof.
+  split.
+  - intros Covers HP b Hb. pose proof tiles_ok as H. rewrite forallb_forall in H.
+    exact (tri_tiles_cover Covers triW (snd b) HP (H b Hb)).
+  - intros Covers HP. exact (tet_tiles_cover Covers tetW gen_tet_bisect HP tet_bisect_ok).
+Qed.
+Print Assumptions C13_children_tile_parent_given_principle.
 
 (* tetrahedra (partial): ONE longest-edge bisection tiles its parent; the work-list loop is not proved *)
 Theorem C13_tet_bisection_tiles_parent_partial :
